@@ -1,9 +1,13 @@
 """Persistent worker of C02: executes JSON programs under this process' configuration
 (PYTHONHASHSEED, USIM_WAITQUEUE, -O) with seeded heap perturbation and returns the event log.
 Imports only the interpreter and usim (no Hypothesis): it must run under `python -O` too."""
+import gc
 import hashlib
 import json
+import os
 import sys
+
+GC_EVERY = os.environ.get('C02_GC') == '1'
 
 
 def canon_log(it, outcome, exc):
@@ -29,13 +33,22 @@ def run_one(prog, seed):
     from vlib.interp import execute
     from vlib.probe import Probe
     keep = junk(seed, 40 + seed % 300)
-    it, outcome, exc, p = execute(prog, Probe(b_step=5000, b_total=80000), wall=60)
+    observe = None
+    if GC_EVERY:
+        # the cyclic collector may run at any moment of a real program: here it runs before every activation
+        gc.collect()
+        observe = lambda it, k, loop: gc.collect()      # noqa: E731
+    it, outcome, exc, p = execute(prog, Probe(b_step=5000, b_total=80000), wall=60, observe=observe)
     text = canon_log(it, outcome, exc)
     del keep
     return text
 
 
 def main():
+    if GC_EVERY:
+        from vlib.interp import execute      # noqa: F401  (import everything first)
+        gc.collect()
+        gc.freeze()                          # what exists now is not garbage: keeps the frequent collections cheap
     for line in sys.stdin:
         req = json.loads(line)
         if req.get('quit'):
